@@ -28,9 +28,21 @@ def cfloat(f):
     return "(%s)%%float" % h
 
 
-def pyval(v):
+def pyval_plain(v):
+    """elements of classical arrays are numpy scalars: their Python value"""
     if isinstance(v, NP_TYPES):
+        if isinstance(v, np.bool_):
+            return bool(v)
+        if isinstance(v, np.integer):
+            return int(v)
+        if isinstance(v, np.floating):
+            return float(v)
         raise Unconvertible("numpy value %r" % (v,))
+    return v
+
+
+def pyval(v):
+    v = pyval_plain(v)
     if isinstance(v, bool):
         return "(VBool %s)" % ("true" if v else "false")
     if isinstance(v, int):
